@@ -143,6 +143,24 @@ CHECKS["C06"] = (
     "the solver returns the distribution of an iterate whose recomputed moments are within atol of the input, and "
     "concrete witnesses with residual >= atol are reported as not converged.", "DESIGN.md#c06",
     "Convergence/fidelity for von-Mises mixtures, Newton-vs-scipy agreement and the MEM discretisation bound are NOT claimed.")
+CHECKS["C08"] = (
+    "Unit by unit on nf=2 x nd=3..4 (thorough 6) with symbolic non-negative E, symbolic u*/U10 and z0: ST4 wind input "
+    "is >= 0, zero where E=0 and where the bin has no downwind component, proportional to E at fixed z0, and the U10 "
+    "input equals the friction-velocity input through the log law; band-integrated saturation is >= 0, linear in E and "
+    "equals its +-80 degree cos^2 integral; ST4 saturation and cumulative breaking and ST6 dissipation are <= 0 and "
+    "zero where E=0 for arbitrary non-negative inputs; whole kernels vanish for an empty spectrum. Through the classes "
+    "(source functions replaced by arbitrary symbolic rate fields): rate() stacks per-point results evaluated with "
+    "each point's own spectrum/wind/depth/roughness, bulk rates equal sum rate*df*dtheta with the spectrum's own bin "
+    "widths, imbalance == generation + dissipation - dE/dt (spectral and bulk).", "DESIGN.md#c08",
+    "WAM tail-stress magnitude, Romero breaking, finite depth and prange races are outside.")
+CHECKS["C09"] = (
+    "On uniform grids N in {4,6} (thorough 8) with exact algebraic cos/sin, for every rotation k and the mirror image, "
+    "symbolic non-negative E and symbolic u*, z0: the ST4 wind-input field, the band-integrated saturation and the "
+    "saturation breaking field permute by k bins (cumulative breaking: symbolic at N=4 plus concrete witnesses), bulk "
+    "rates are equal, the east/north wave-supported stress components, the WAM tail-stress components (frequency "
+    "integral as one symbol) and the dissipation-weighted wavenumber vector handed to atan2 rotate/mirror as vectors.",
+    "DESIGN.md#c09", "Equality of the root-finder outputs (roughness, U10) for rotated inputs and the atan2 shift are "
+    "consequences stated, not solver claims.")
 NA = {}
 
 ALL = [f"C{i:02d}" for i in range(1, 21)]
